@@ -37,6 +37,8 @@ SPEC['explanation'] += " T7 is applied to every operation that can add a key (a 
 SPEC['decided'] += ['capacity test on every adding operation', 'no reflected re-dispatch in __eq__']
 SPEC['explanation'] += " T9.touch: every normal path of __setitem__ puts a link in front of the anchor (no 'same value' early exit). T9.kwsrc: update() feeds its keyword items on every path except update(self). T14.get: get/setdefault answer with the looked-up value or the caller's default."
 SPEC['decided'] += ['assignment always refreshes recency', 'keyword source fed on every path']
+SPEC['explanation'] += ' T9.srcorder: update() does not pass a source through a re-keying / re-ordering copy (repeated keys keep refreshing recency).'
+SPEC['decided'] += ['update sources fed in their own order']
 MANIFEST = {
     'technique': 'paired-effect (lock-step) analysis over all CFG paths with inlined helpers; dominating-guard check with comparison canonicalisation; who-may-write counters; observer purity of copy()',
     'text': ('Decides necessary structural conditions of C02 for all paths of all methods: the three structures (dict, '
@@ -117,6 +119,30 @@ def touch_on_set(ctx):
         else:
             ctx.ob('T9.touch', '%s.__setitem__' % cls, 'every assignment makes the key the most recent one (a link is put in front of the '
                    'anchor on every normal path)', bad is None, loc=si.loc, detail='%d paths' % n, path=bad.describe() if bad else None)
+
+
+def sources_in_order(ctx):
+    """T9.srcorder: update() feeds its sources as they come: neither the positional source nor the keyword items pass through a
+    re-keying or re-ordering constructor (dict / set / frozenset / sorted / reversed / OrderedDict / Counter) on their way to the
+    stores.  A list of pairs may repeat a key: each assignment refreshes the key's recency, so collapsing the repeats first
+    (the key keeps the position of its first occurrence) changes which key is evicted next."""
+    import ast
+    from rules.common import txt
+    from sa.paths import call_name
+    prog = ctx.program
+    up = prog.func('cacheutils.LRI.update')
+    kw = up.node.args.kwarg.arg if up.node.args.kwarg else None
+    srcs = {p for p in up.params[1:2]} | ({kw} if kw else set())
+    bad = None
+    for c in ast.walk(up.node):
+        if isinstance(c, ast.Call) and (call_name(c) or '').split('.')[-1] in ('dict', 'set', 'frozenset', 'sorted', 'reversed', 'OrderedDict',
+                                                                               'Counter'):
+            fed = list(c.args) + [k.value for k in c.keywords]
+            if any(isinstance(x, ast.Name) and x.id in srcs for a in fed for x in ast.walk(a)):
+                bad = bad or c
+    ctx.ob('T9.srcorder', up.fq, 'the sources of update() reach the stores in their own order, repeats included (no dict()/set()/sorted() '
+           'copy in between)', bad is None, loc=up.loc if bad is None else '%s:%d' % (up.module.relpath, bad.lineno),
+           detail=txt(bad) if bad is not None else '')
 
 
 def kwargs_consumed(ctx):
@@ -209,6 +235,7 @@ def run(ctx):
     reflected_eq(ctx)
     touch_on_set(ctx)
     kwargs_consumed(ctx)
+    sources_in_order(ctx)
     from rules.common import check_default_returned
     for _c in ('cacheutils.LRI', 'cacheutils.LRU'):
         for _n in ('get', 'setdefault'):
